@@ -110,6 +110,22 @@ def _reparse_raw_base(
     return copy
 
 
+def _tail_parent(stmtlike: fst.FST) -> fst.FST | None:
+    """First parent with a location if `stmtlike` is its last node and it ends exactly where `stmtlike` ends (not past a
+    trailing semicolon), otherwise `None`."""
+
+    if getattr(a := stmtlike.a, 'end_col_offset', None) is None:  # match_case
+        a = a.body[-1]
+
+    while (parent := stmtlike.parent) and not stmtlike.next():
+        if (end_col_offset := getattr(parenta := parent.a, 'end_col_offset', None)) is not None:
+            return parent if end_col_offset == a.end_col_offset and parenta.end_lineno == a.end_lineno else None
+
+        stmtlike = parent
+
+    return None
+
+
 def _reparse_raw_stmtlike(self: fst.FST, new_lines: list[str], ln: int, col: int, end_ln: int, end_col: int) -> bool:
     """Reparse only statementlike or block header part of statementlike containing changes. We reparse minimum statement
     level due to things like f/t-string debug strings."""
@@ -231,11 +247,16 @@ def _reparse_raw_stmtlike(self: fst.FST, new_lines: list[str], ln: int, col: int
     if not in_blkhead:  # non-block statement or modifications not limited to block header part
         copy_lines[pend_ln] = bistr(copy_lines[pend_ln][:pend_col])
 
+        tail = _tail_parent(stmtlike)
+
         _reparse_raw_base(stmtlike, new_lines, ln, col, end_ln, end_col, copy_lines, path, True, None,
                           first_lineno, first_line_col_delta)
 
-        if is_elif:  # nuking a whole elif will parse but can do bad things to end positions
-            stmtlike._set_end_pos((a := stmtlike.a).end_lineno, a.end_col_offset)  # setting own position to what it currently is but will also propagate up the tree
+        if tail:  # parents which ended with the old node were only offset by the put, they must end with the new node (which may have shrunk to before a new trailing comment or lost its last `elif`)
+            if getattr(a := stmtlike.a, 'end_col_offset', None) is None:  # match_case
+                a = a.body[-1]
+
+            tail._set_end_pos(a.end_lineno, a.end_col_offset, (taila := tail.a).end_lineno, taila.end_col_offset)
 
         return True
 
